@@ -6,7 +6,7 @@ P = {
          'Bycycle.fit under every option set with <= 1 (quick) / <= 2 (thorough) deviations from the default plus the full '
          'option product on W(4,5); every returned table is checked for the ordering / tiling / alternation / boundary '
          'invariants and for genuine extremum kinds against the C02 reference. Preconditions come from the reference model, '
-         'so a raise inside the precondition is a violation.',
+         'so a raise inside the precondition is a violation. One set of option objects is reused for every call of a case (second fit, second call); inputs also come as strided views, integer dtype, riding on steep drifts and in lengths 36..60 incl. primes.',
     note='signals = words over integer waveform letters x global transforms (6 decades of scale, DC, negation); neurodsp filter trusted',
     technique='bounded-exhaustive enumeration of words x option deviations (deviation-bounded) on the real pipeline'),
  'C02': dict(
@@ -26,7 +26,7 @@ P = {
     text='For every word x centring x samples on/off x filter/boundary deviation each shape column of the returned table is '
          'recomputed from the row\'s own sample columns and the original signal (definitions written by hand for both '
          'centrings, independent of rename_extrema_df); the four shape helper functions are additionally driven with '
-         'every synthetic cyclepoint table over small integer signals.',
+         'every synthetic cyclepoint table over small integer signals. Extra spaces: one pre-allocated array analysed twice with different content, integer-dtype signals with odd flank sums, signal lengths 36..60 incl. primes, drifting signals.',
     note='band_amp compared against neurodsp amp_by_time (trusted) averaged over [last, next)',
     technique=T),
  'C05': dict(
@@ -40,14 +40,14 @@ P = {
     text='detect_bursts_cycles is run on every synthetic table of <= 4 / 5 cycles over 13 threshold-relative profiles '
          '(values exactly on, just below, NaN) x min_n_cycles x 2 threshold vectors, on the complete {below,at,above,NaN}^4 '
          'relation product, and on the pipeline tables of all words over the complete threshold REGION grid (every order '
-         'relation between threshold and column values) with monotone-chain checks; all against a threshold-and-run reference.',
+         'relation between threshold and column values) with monotone-chain checks; all against a threshold-and-run reference. min_n_cycles 0..4 and each threshold at 0 / 1 are also routed through compute_features; tables handed in are already labelled.',
     note='region abstraction makes "all thresholds in [0,1]" finite; one (quick) or two (thorough) thresholds leave the default at a time',
     technique=T),
  'C07': dict(
     text='For every word x centring x amp_threshes x the 16 routes of min_n_cycles (thresholds / burst options / both / neither) '
          'x min_burst_duration, burst_fraction is recomputed as the inclusive-window mean of the neurodsp dual-threshold mask '
          'called with the one effective minimum, and labels as the run filter with the same minimum over the full region '
-         'grid of burst_fraction_threshold.',
+         'grid of burst_fraction_threshold. Includes min_burst_duration 0, minimum 0, and one pre-allocated array analysed twice with different content.',
     note='neurodsp detect_bursts_dual_threshold trusted as the sample-wise detector',
     technique=T),
  'C08': dict(
@@ -60,65 +60,65 @@ P = {
  'C09': dict(
     text='Differential, exact: for every word x option set compute_features(x, trough) is compared with '
          'compute_features(-x, peak) mapped through a hand-written column map; integer columns, labels and floats must be '
-         'identical (negation commutes exactly with IEEE arithmetic).',
+         'identical (negation commutes exactly with IEEE arithmetic). The mirror is checked again after recompute_edges (7-letter words) and for integer / int16-near-full-scale / drifting inputs.',
     note='implementation vs implementation under an exactly commuting transformation; both burst methods',
     technique='bounded-exhaustive metamorphic enumeration on the real code'),
  'C10': dict(
     text='Differential, exact: every word x option set is re-analysed with the signal scaled by 2^k (k in -10,-3,1,10) and '
          'with (fs, f_range) multiplied by 1/2, 2, 4 (filter length in cycles); index / ratio columns and labels must be '
-         'identical and voltage columns scaled exactly.',
+         'identical and voltage columns scaled exactly. One option object is reused across the re-scaled and re-rated calls; scales 2^-50..2^40; every {-1,0,1}^9 (quick) / ^12 (thorough) signal at cyclepoint level under a 9-tap filter (filter-length sensitive).',
     note='powers of two only, so floating point commutes exactly and equality cannot flake',
     technique='bounded-exhaustive metamorphic enumeration on the real code'),
  'C11': dict(
     text='TLC enumerates all reachable states of a TLA+ model of Pool.imap dispatch/completion; every terminal completion '
          'order is replayed against compute_features_2d / BycycleGroup.fit in a deterministic VirtualPool (pickle boundary '
          'kept) and re-enacted in real worker processes by gating task completion; each result must equal the per-row '
-         'analysis for every rows x option list x n_jobs x progress combination.',
+         'analysis for every rows x option list x n_jobs x progress combination. Option kinds: none / shared dict / per-row list / one dict object repeated; C- and Fortran-ordered inputs; the group entry first edits an unrelated default object and uses filter-sensitive rows.',
     note='schedules exhaustive for <= 4 (quick) / 5 (thorough) tasks; worker start order / spawn start method not modelled',
     technique='TLC explicit-state model checking of the scheduling model + exhaustive trace replay against the implementation'),
  'C12': dict(
     text='All shapes (n0,n1) in {1,2,3}^2 incl. non-square and size-1 x the three axis modes x shared / 1-D / 2-D option lists x '
          'n_jobs x every feasible completion order of the outer pool are run through compute_features_3d and '
-         'BycycleGroup.fit; each slot must hold the analysis (per-signal or epoched reference) of the signal at that position.',
+         'BycycleGroup.fit; each slot must hold the analysis (per-signal or epoched reference) of the signal at that position. Also: one dict object repeated, Fortran-ordered arrays, progress set, and a second fit on the same group object.',
     note='outer-pool completion orders from the TLC model; epoched reference shared with C13',
     technique='TLC scheduling model + exhaustive trace replay; exhaustive shape x axis x option grid'),
  'C13': dict(
     text='epoch_df is run on every synthetic cyclepoint table (T=12/14, both centrings) x every epoch length, and '
          'compute_features_2d(axis=None) on every word reshaped into epochs of 4..24 samples x option kinds; rows must '
-         'partition the flattened analysis exactly once, in order, shifted by the epoch start, with labels per the rule.',
+         'partition the flattened analysis exactly once, in order, shifted by the epoch start, with labels per the rule. Option kinds: none / dict / per-epoch list / one dict object repeated / list with entries that omit thresholds; C- and Fortran-ordered arrays; 80-sample words in 40-sample epochs so that per-epoch labels can differ.',
     note='closing extremum exactly on an epoch boundary may sit in either adjacent epoch',
     technique=T),
  'C14': dict(
     text='Explicit-state BFS over operation histories (fit on two signals, recompute_edges, threshold and burst-option '
          'edits, load) on a live Bycycle object, depth 3 / 5, from 16+ initial configurations; after every fit the table '
          'must equal compute_features with the settings ledger and a fresh object; BycycleGroup.models mirror is checked '
-         'over shapes x axes.',
+         'over shapes x axes. Operations include an in-place edit of a nested find_extrema_kwargs setting (with a check that freshly constructed objects still carry the documented defaults) and attribute access after every table-replacing operation.',
     note='state = settings ledger + live attribute dicts + table hash; histories replayed on fresh objects',
     technique='explicit-state BFS over operation histories with canonical state hashing on the real objects'),
  'C15': dict(
     text='Fixpoint closure: ~35 API calls sharing one set of argument objects are applied from the pristine state; a pure '
          'implementation maps the pristine fingerprint to itself, so the reachable state space is one state and the '
          'statement holds for histories of every length; all ordered pairs (quick) / triples (thorough) over a core are '
-         'executed and compared with fresh-state results.',
+         'executed and compared with fresh-state results. The alphabet includes default-argument calls, a burst-free table, and a caller-owned buffer overwritten in place between calls.',
     note='fingerprint covers arrays, dicts, tables, pandas chained-assignment option, open figures',
     technique='explicit-state closure (BFS to fixpoint) over API calls on shared argument objects'),
  'C16': dict(
     text='recompute_edges is run on every synthetic burst layout of <= 5 / 6 cycles (5 cycle kinds, 2 monotonicities) x '
          'threshold menu x reductions x both centrings, and on pipeline tables of bursty words; edge values must equal the '
          'one-sided reference, everything else (and the input table) must be unchanged, labels must follow the rule on the '
-         'edited table.',
+         'edited table. Burst-free tables are included (no edges: only re-labelling, input untouched, result a new object).',
     note='a cycle that is both an end and a start edge may carry either one-sided value',
     technique=T),
  'C17': dict(
     text='extrema_interpolated_phase is run on every alternating extremum placement (gaps >= 2) on arrays of length <= 10 / 13 '
          'with every midpoint placement (coincidences included) and on the cyclepoints of all words x boundary x '
-         'first_extrema; anchors, range, NaN span and monotonicity are checked on every sample.',
+         'first_extrema; anchors, range, NaN span and monotonicity are checked on every sample. Midpoint arguments also one-sided (only rises / only decays) and before the first / after the last extremum.',
     note='tolerance 1e-12 on anchor values',
     technique=T),
  'C18': dict(
     text='limit_df on every synthetic cyclepoint table (T=9/12) x both centrings x every (start, stop) pair on the half-sample '
          'grid incl. None x reset_indices x fs; limit_signal on every time axis <= 8 samples; split/drop on pipeline tables; '
-         'flatten_dfs on every 1-D and 2-D list shape - all against selection references.',
+         'flatten_dfs on every 1-D and 2-D list shape - all against selection references. Time axes include negative times.',
     note='whether partially overlapping cycles are kept is left open (docstring and code disagree)',
     technique=T),
  'C19': dict(
